@@ -1,6 +1,7 @@
 package main
 
 import (
+	"math"
 	"os"
 	"sort"
 	"context"
@@ -291,6 +292,29 @@ func runC13(c *Ctx) {
 			check(r, fmt.Sprintf("degenerate period P=%v L=%v D=%v", p, r.L, d))
 		}
 	}
+	// periods near the largest Duration (a controller that is never meant to
+	// relist): the fuzzed period does not overflow into an immediate tick
+	for _, p := range []time.Duration{math.MaxInt64, math.MaxInt64 / 2, 1 << 62, math.MaxInt64 - 1} {
+		for k := 0; k < 6; k++ { // the fuzz is random: several tries
+			r := &listerRun{P: p, L: 10 * time.Millisecond, D: 0, total: 1000 * time.Second}
+			runLister(c, r)
+			starts := 0
+			for _, e := range r.trace {
+				if e.kind == 0 {
+					starts++
+				}
+			}
+			c.Rep.Evaluations++
+			if starts != 1 {
+				c.Violation("", fmt.Sprintf("with a refresh period of %d ns (%.0f years) the lister issued %d list calls within 1000 s", int64(p), p.Hours()/8766, starts),
+					map[string]interface{}{"scenario": "huge refresh period", "period_ns": int64(p), "trace": encTrace(r.trace).String()})
+				break
+			}
+			if !r.stopped {
+				c.Violation("", fmt.Sprintf("lister with a refresh period of %d ns does not stop", int64(p)), map[string]interface{}{"period_ns": int64(p)})
+			}
+		}
+	}
 	// the ticker in isolation: in virtual time the delay before a tick IS
 	// nextPeriod().  Theorem C13_next_period_ns (binary64, Flocq): an integer
 	// number of nanoseconds within 1.5 ns of [0.9 P, 1.1 P + 1], for P <= 2^44 ns
@@ -344,7 +368,7 @@ func runC13(c *Ctx) {
 		c.Stat("next_period_max_permille", int(hi*1000))
 		c.DistinctCase("ticker-next-period")
 	}
-	c.Rep.Rule = "lister+ticker in isolation (verif export) inside a synctest bubble with a fake list client: (period, list latency, consumption delay) on a grid with latency/period in {0,1/4,1/2,1,3/2,2,3,5} and delay/period in {0,1/2,1,2,3}, seeded random triples, stop requests (stop channel / context) swept across the list/tick cycle, and every 1st/2nd/3rd list call failing with {error, context.Canceled, context.DeadlineExceeded, not a list}. Observed: virtual timestamps of list start/end and result consumption, Done after stop, bubble deadlock. Oracles: lists keep being issued (count over the horizon), Done closes at once after stop, no goroutine left blocked; the trace is checked by the model-derived predicate trace_ok (one list at a time, each start >= previous consumption + 0.9 period and after the previous end). Plus the ticker alone (verif export) in virtual time: the delay before a tick is nextPeriod() exactly; 16 periods from 1 ns to 2^44 ns x 20 (400) samples each lie within the bounds proved in binary64 (C13_next_period_ns). Non-trivial = run with >= 3 list calls."
+	c.Rep.Rule = "lister+ticker in isolation (verif export) inside a synctest bubble with a fake list client: periods near the largest Duration (no list beyond the first within 1000 s), degenerate periods 0 / 1 ns / 1 us, and (period, list latency, consumption delay) on a grid with latency/period in {0,1/4,1/2,1,3/2,2,3,5} and delay/period in {0,1/2,1,2,3}, seeded random triples, stop requests (stop channel / context) swept across the list/tick cycle, and every 1st/2nd/3rd list call failing with {error, context.Canceled, context.DeadlineExceeded, not a list}. Observed: virtual timestamps of list start/end and result consumption, Done after stop, bubble deadlock. Oracles: lists keep being issued (count over the horizon), Done closes at once after stop, no goroutine left blocked; the trace is checked by the model-derived predicate trace_ok (one list at a time, each start >= previous consumption + 0.9 period and after the previous end). Plus the ticker alone (verif export) in virtual time: the delay before a tick is nextPeriod() exactly; 16 periods from 1 ns to 2^44 ns x 20 (400) samples each lie within the bounds proved in binary64 (C13_next_period_ns). Non-trivial = run with >= 3 list calls."
 	c.Rep.Stats["runs"] = runs
 }
 
